@@ -155,8 +155,9 @@ CLAIMED.update({
              'identifier (literal characters, backslash-character, 1-6 hex digits of either case with any legal terminator) unescapes to it and '
              'two spellings are one name to the parser. Also: names and keywords are compared after ASCII lower-casing; every escape form of every code point below U+0800 '
              'decodes to that code point (kernel computation on the model\'s css_unescape over the regenerated escape regexes); a '
-             'committed corpus of 24 selectors x 3 respellings compiles to equal structures in the model. Differential: 4 respellings '
-             'of each generated AST (white space/comments everywhere allowed, every escape form, quote styles, bare identifiers, '
+             'committed corpus of 24 selectors x 3 respellings compiles to equal structures in the model; line continuations of every kind contribute nothing to a '
+             'quoted value in twelve contexts (finite kernel check on the regenerated RE_CSS_STR_ESC, StrContFacts). Differential: 4 respellings '
+             'of each generated AST (white space/comments everywhere allowed, every escape form, line continuations inside quoted values, quote styles, bare identifiers, '
              'case) must compile to the structure of the canonical spelling, also through the model parser.',
         note='the escape layer is proved for all strings; the unbounded print/parse theorem for whole selectors (white space, comments, quotes) is not proved (partial).',
         technique='Coq parser model + kernel-checked escape/corpus facts + respelling differential'),
